@@ -14,6 +14,12 @@ ASSUMPTIONS = ['integers are in-width and non-negative (an over-wide integer is 
                'DE43_* entries are compared with the regex model (pattern translated on every run) and, for the packaged pattern, with an independent non-regex reading']
 
 
+THREADS = True
+
+
+def thread_ok(case):
+    return not case.get('warm')
+
 def enc_value(rng, c, codec, over=False):
     ft = c['field_type']
     if c.get('field_processor') == 'ICC' or c.get('field_python_type'):
